@@ -4,7 +4,7 @@
 # paths rewritten to the simulator shims, and builds the simulation runner
 # against it.  Exit 2 on any build trouble.  The scratch copy is removed.
 set -u
-OUT="$1"; MODE="${2:-plain}"
+OUT="$(realpath -m "$1")"; MODE="${2:-plain}"
 export GOFLAGS=-mod=mod GOPROXY=off GOSUMDB=off GOTOOLCHAIN=local CGO_ENABLED=1
 VERIF=/verif
 PARENT="${VERIF_SCRATCH:-${TMPDIR:-/tmp}}"
